@@ -299,6 +299,24 @@ class DetectModel(Model):
                     return byte_value(self.cells[i])
                 return TOP
             return TOP
+        if name in ('memcpy', 'memmove') and len(args) == 3:
+            # a probe taken by memcpy(&local, &text[i], n): the same read as *reinterpret_cast<const T*>(&text[i]), without the alignment demand
+            src = it.ev(fr, args[1], depth)
+            cnt = it.ev(fr, args[2], depth)
+            d = strip(args[0])
+            while d is not None and d['k'] in ('UnaryOperator',) and d.get('op') == '&':
+                d = strip(d['c'][0])
+            if isinstance(src, Pos) and src.k is not None and isinstance(cnt, int) and d is not None and d['k'] == 'DeclRefExpr':
+                ok = 0 <= src.k and src.k + cnt <= self.L
+                it.act('PROBE', cnt, src.k, ok, fr.f.loc(n))
+                v = TOP
+                if ok:
+                    v = byte_value(self.cells[src.k]) if cnt == 1 else Word(self.cells[src.k:src.k + cnt], src.k)
+                key = it.lvalue(fr, d, depth)
+                if key is not None:
+                    it.write_key(fr, key, v)
+                return TOP
+            raise AnalysisBroken('detection table: memcpy with operands outside the model at %s' % fr.f.loc(n))
         if name in ('NativeToLittleEndian', 'LittleEndianToNative'):
             return it.ev(fr, args[0], depth)
         if name == 'Reverse' and len(args) == 1:
